@@ -1623,3 +1623,29 @@ spec fn fresh_state(s: JobState) -> bool {
 spec fn all_fresh(jobs: Seq<NodeInfo>) -> bool {
     forall|i: int| 0 <= i < jobs.len() ==> fresh_state(#[trigger] jobs[i].state)
 }
+
+// ---- startup classification (C03 clause: same set of input names, result exists, has a record)
+/// C03: the job's recorded input-name list exists and differs from the current one, or it has no
+/// upstream and no such record
+spec fn inputs_changed_spec(strategy_list: Seq<char>, h: Map<String, String>, id: Seq<char>, has_up: bool) -> bool {
+    let k = str_of(key_inputs(id));
+    if h.contains_key(k) { h[k]@ != strategy_list } else { !has_up }
+}
+
+/// the state identify_missing_outputs gives a fresh job
+spec fn startup_state(s: JobState, changed: bool, present: bool, own_record: bool) -> JobState {
+    match s {
+        JobState::Always(_) => s,
+        JobState::Output(_) => if changed || !present || !own_record {
+            JobState::Output(JobStateOutput::NotReady(ValidationStatus::Invalidated))
+        } else { s },
+        JobState::Ephemeral(_) => if changed {
+            JobState::Ephemeral(JobStateEphemeral::NotReady(ValidationStatus::Invalidated))
+        } else { s },
+    }
+}
+
+spec fn topo_ok(topo: Option<Vec<usize>>, dag: &GraphType) -> bool {
+    topo is Some && topo.unwrap()@.no_duplicates()
+        && forall|m: usize| #![trigger topo.unwrap()@.contains(m)] topo.unwrap()@.contains(m) <==> dag.nodes_set().contains(m)
+}
